@@ -459,6 +459,16 @@ def call_method(ex, st, node, recv, name, args, kwargs):
             return ite(has, cur, args[1]), VDict(z3.Store(recv.has, k.term, False), recv.val, recv.key, recv.valty, recv.valnone)
         if name == 'clear':
             return VNone(), VDict(z3.K(recv.has.sort().domain(), z3.BoolVal(False)), recv.val, recv.key, recv.valty, recv.valnone)
+    if isinstance(recv, VStr) and name == 'split' and not args and not kwargs:
+        # str.split() on runs of whitespace: the words (deterministic functions of the string); no words iff the string is blank;
+        # every word is non-empty and free of ASCII whitespace
+        L = VList(z3.Function('wsplit$arr', z3.StringSort(), z3.ArraySort(z3.IntSort(), z3.StringSort()))(recv.term), z3.Function('wsplit$len', z3.StringSort(), z3.IntSort())(recv.term), recv.ty)
+        i = z3.Int(fid('i'))
+        ws = z3.Union(*[z3.Re(c) for c in ' \t\n\r\x0b\x0c'])
+        blank = z3.InRe(recv.term, z3.Star(ws if isinstance(recv.ty, TBytes) else z3.Union(ws, *[z3.Re(c) for c in '\x1c\x1d\x1e\x1f\x85\xa0'])))
+        st.assume(L.n >= 0); st.assume((L.n == 0) == blank)
+        st.assume(z3.ForAll([i], z3.Implies(z3.And(0 <= i, i < L.n), z3.And(z3.Length(z3.Select(L.arr, i)) >= 1, z3.Not(z3.InRe(z3.Select(L.arr, i), z3.Concat(z3.Star(z3.AllChar(z3.ReSort(z3.StringSort()))), ws, z3.Star(z3.AllChar(z3.ReSort(z3.StringSort())))))))))) 
+        return L, None
     if isinstance(recv, VStr) and name in ('split', 'rsplit') and 1 <= len(args) <= 2 and z3.is_string_value(args[0].term) and not kwargs:
         sep = args[0].term
         if len(args) == 2:
